@@ -179,6 +179,14 @@ func rulePauseNonblock(r *core.Reporter) {
 		return
 	}
 	fns := withAnon(fn)
+	// a named function handed to subscribers.Range instead of a literal is the callback all the same
+	allInstrs(fn, func(in ssa.Instruction) {
+		if c, ok := in.(*ssa.Call); ok && ir.IsCallTo(c, "(*sync.Map).Range") && len(c.Call.Args) == 2 {
+			if cb, isF := ir.Strip(c.Call.Args[1]).(*ssa.Function); isF && core.InModule(cb) {
+				fns = append(fns, withAnon(cb)...)
+			}
+		}
+	})
 	r.Analysed(fns...)
 	// CAS(false,true)
 	var cas *ssa.Call
